@@ -1,6 +1,6 @@
 (* P19c.v -- C19: the method / status accessors, the path getters and the trait view of the model pass the
    suite-190 oracle (spec190, stated on the raw state) on every input of kinds 0-3, 5 and 11. *)
-From CoapV Require Import proofs.Tac Header Packet UintOpt Utf8 Numbers TypedOpt Accessors Suite06 Suite19 proofs.P19 proofs.P14b.
+From CoapV Require Import proofs.Tac Header Packet UintOpt Utf8 Numbers TypedOpt Accessors Suite06 Suite19 proofs.PEnc proofs.P06 proofs.P06b proofs.P19 proofs.P19b proofs.P13b proofs.P14b.
 
 Lemma nth_req m rt : nth_error all_reqtypes (N.to_nat m) = Some rt -> req_index rt = m.
 Proof.
@@ -43,4 +43,353 @@ Proof.
     destruct (forallb utf8_valid vs); apply list_eqb_refl.
   - destruct (rd_packet r) as [[p [|? ?]]|]; try discriminate. unfold wr_view.
     destruct (readable_view p) as (-> & -> & ->). apply list_eqb_refl.
+Qed.
+
+(* kind 7: the observe-flag getter on any raw state *)
+Lemma raw_first_wf p k b r : pkt_bytes_ok p = true -> raw_of p k = b :: r -> bytes_wf b.
+Proof.
+  unfold pkt_bytes_ok, raw_of. intros H E. apply andb_true_iff in H. destruct H as (H & _). apply andb_true_iff in H. destruct H as (H & _).
+  destruct (opt_get (opts p) k) as [vs|] eqn:EG; [|discriminate]. subst vs.
+  rewrite forallb_forall in H.
+  assert (HI : In (k, b :: r) (opts p)).
+  { clear H. induction (opts p) as [|[k' vs'] m IH]; cbn [opt_get] in EG; [discriminate|].
+    destruct (k' =? k) eqn:EK; [left; assert (k' = k) by lia; congruence|].
+    destruct (k <? k'); [discriminate|right; apply IH; exact EG]. }
+  specialize (H _ HI). cbn [fst snd] in H. apply andb_true_iff in H. destruct H as (_ & H). cbn [forallb] in H.
+  apply andb_true_iff in H. destruct H as (H & _). apply bytes_wf_forallb. exact H.
+Qed.
+
+Theorem model_passes_oracle190_flag r : verdict190 (7 :: r) (run190 (7 :: r)) = true.
+Proof.
+  unfold verdict190. destruct (in_domain190 (7 :: r)) eqn:ED; [|reflexivity]. cbn [in_domain190 spec190 run190] in *.
+  destruct (rd_packet r) as [[p [|? ?]]|]; try discriminate.
+  rewrite observe_flag_raw. destruct (raw_of p 6) as [|b t] eqn:ER; [reflexivity|].
+  pose proof (raw_first_wf p 6 b t ED ER) as Hw.
+  destruct (len b <=? 4) eqn:EL; cbn [andb]; [|reflexivity].
+  rewrite be_fold_value by (auto; lia).
+  assert (Hb : be_value b < 256 ^ 4).
+  { pose proof (be_value_bound b Hw). assert (256 ^ len b <= 256 ^ 4) by (apply N.pow_le_mono_r; lia). lia. }
+  rewrite N.mod_small by exact Hb.
+  destruct (be_value b) as [|[q|q|]] eqn:EV; cbn [observe_of wr_flag of_observe]; try reflexivity.
+  - replace (N.pos q~1 <? 2) with false by lia. reflexivity.
+  - replace (N.pos q~0 <? 2) with false by lia. reflexivity.
+Qed.
+
+(* suite 60 kind 6: get_observe_value and get_content_format on any raw state *)
+Lemma first_as_uint p k w : pkt_bytes_ok p = true -> 0 < w -> w <= 8 ->
+  get_first_option_as p k w =
+    match raw_of p k with
+    | [] => None
+    | b :: _ => Some (if len b <=? w then Ok (be_value b, []) else Err ERR_INCOMPATIBLE)
+    end.
+Proof.
+  intros HP Hw0 Hw8. unfold get_first_option_as, get_first_option. pose proof (raw_first_wf p k) as HW. unfold raw_of in *.
+  destruct (opt_get (opts p) k) as [[|b t]|]; try reflexivity.
+  specialize (HW b t HP eq_refl). unfold dec_value. replace (w =? 0) with false by lia.
+  rewrite uint_try_from_spec by assumption. destruct (len b <=? w); reflexivity.
+Qed.
+
+Theorem model_passes_oracle60_getters r : verdict60 (6 :: r) (run60 (6 :: r)) = true.
+Proof.
+  unfold verdict60. destruct (in_domain60 (6 :: r)) eqn:ED; [|reflexivity]. cbn [in_domain60 spec60 run60] in *.
+  destruct (rd_packet r) as [[p [|? ?]]|]; try discriminate.
+  unfold get_observe_value, get_content_format, OPT_OBSERVE, OPT_CONTENT_FORMAT.
+  rewrite !first_as_uint by (auto; lia).
+  destruct (raw_of p 6) as [|b1 t1]; destruct (raw_of p 12) as [|b2 t2];
+    repeat match goal with |- context [?a <=? ?b] => destruct (a <=? b) end; cbn [wr_obs wr_cf app]; try apply list_eqb_refl.
+Qed.
+
+(* suite 60 kinds 5 and 7: the setters that replace the whole value list *)
+Lemma opt_insert_insert m k a b : opt_insert (opt_insert m k a) k b = opt_insert m k b.
+Proof.
+  induction m as [|[k' vs] m IH]; cbn [opt_insert].
+  - rewrite N.eqb_refl. reflexivity.
+  - destruct (k =? k') eqn:E1; cbn [opt_insert].
+    + rewrite N.eqb_refl. reflexivity.
+    + destruct (k <? k') eqn:E2; cbn [opt_insert].
+      * rewrite N.eqb_refl. reflexivity.
+      * rewrite E1, E2, IH. reflexivity.
+Qed.
+
+Lemma add_after_clear m k v : opt_add (opt_clear m k) k v = opt_insert m k [v].
+Proof.
+  unfold opt_add, opt_clear. destruct (opt_get m k) eqn:E.
+  - rewrite opt_get_insert. cbn [app]. apply opt_insert_insert.
+  - rewrite E. reflexivity.
+Qed.
+
+Lemma set_as_uint p k w v : 0 < w -> v < 256 ^ w ->
+  add_option_as (clear_option p k) k w v [] = Ok (set_opts p (opt_insert (opts p) k [be_min v])).
+Proof.
+  intros Hw Hv. unfold add_option_as, enc_value. replace (w =? 0) with false by lia.
+  rewrite option_from_uint_spec by exact Hv. cbn [bind]. unfold add_option, clear_option, set_opts. cbn [opts hdr token payload].
+  rewrite add_after_clear. reflexivity.
+Qed.
+
+Theorem model_passes_oracle60_set_observe r : verdict60 (5 :: r) (run60 (5 :: r)) = true.
+Proof.
+  unfold verdict60. destruct (in_domain60 (5 :: r)) eqn:ED; [|reflexivity]. cbn [in_domain60 spec60 run60] in *.
+  destruct (rd_packet r) as [[p [|v [|? ?]]]|]; try discriminate.
+  apply andb_true_iff in ED. destruct ED as (Hv & HP).
+  destruct (set_observe_value_spec p v ltac:(lia)) as (p' & E & _ & G & _).
+  unfold set_observe_value in E. rewrite set_as_uint in E by (unfold U32 in *; change (256 ^ 4) with 4294967296; lia).
+  injection E as <-. unfold set_observe_value. rewrite set_as_uint by (unfold U32 in *; change (256 ^ 4) with 4294967296; lia).
+  rewrite G. apply list_eqb_refl.
+Qed.
+
+Lemma nth_cf i c : nth_error all_content_formats (N.to_nat i) = Some c -> cf_index c = i.
+Proof.
+  intros H.
+  assert (Hm : (N.to_nat i < length all_content_formats)%nat) by (apply nth_error_Some; rewrite H; discriminate).
+  assert (HA : forallb (fun j => match nth_error all_content_formats (N.to_nat j) with Some c' => cf_index c' =? j | None => false end)
+                       (map N.of_nat (seq 0 (length all_content_formats))) = true) by (vm_compute; reflexivity).
+  rewrite forallb_forall in HA. specialize (HA i). rewrite H in HA. apply N.eqb_eq. apply HA.
+  apply in_map_iff. exists (N.to_nat i). split; [lia|apply in_seq; lia].
+Qed.
+
+Theorem model_passes_oracle60_set_cf r : verdict60 (7 :: r) (run60 (7 :: r)) = true.
+Proof.
+  unfold verdict60. destruct (in_domain60 (7 :: r)) eqn:ED; [|reflexivity]. cbn [in_domain60 spec60 run60] in *.
+  destruct (rd_packet r) as [[p [|i [|? ?]]]|]; try discriminate.
+  destruct (nth_error all_content_formats (N.to_nat i)) as [c|] eqn:EN.
+  - destruct (content_format_roundtrip p c) as (p' & E & G & _).
+    assert (Hn : of_content_format c < 65536) by (destruct c; cbn; lia).
+    unfold set_content_format in *. unfold U16 in *. replace (of_content_format c <? 65536) with true in * by lia.
+    rewrite set_as_uint in * by (change (256 ^ 2) with 65536; lia). injection E as <-.
+    rewrite G. cbn [wr_cf]. rewrite (nth_cf i c EN). apply list_eqb_refl.
+  - exfalso. apply andb_true_iff in ED. destruct ED as (Hi & _). apply nth_error_None in EN.
+    assert (length all_content_formats = 60%nat) by reflexivity. lia.
+Qed.
+
+(* suite 190 kind 8 is suite 60 kind 7 *)
+Theorem model_passes_oracle190_cf r : verdict190 (8 :: r) (run190 (8 :: r)) = true.
+Proof. exact (model_passes_oracle60_set_cf r). Qed.
+
+Theorem model_passes_oracle190_set_flag r : verdict190 (6 :: r) (run190 (6 :: r)) = true.
+Proof.
+  unfold verdict190. destruct (in_domain190 (6 :: r)) eqn:ED; [|reflexivity]. cbn [in_domain190 spec190 run190] in *.
+  destruct (rd_packet r) as [[p [|f [|? ?]]]|]; try discriminate.
+  apply andb_true_iff in ED. destruct ED as (Hf & HP).
+  assert (f = 0 \/ f = 1) as [-> | ->] by lia; cbn [observe_of].
+  - destruct (observe_flag_roundtrip p ObsRegister) as (p' & E & G & _).
+    unfold set_observe_flag, set_observe_value in *. cbn [of_observe] in *.
+    rewrite set_as_uint in * by (change (256 ^ 4) with 4294967296; lia). injection E as <-.
+    rewrite G. apply list_eqb_refl.
+  - destruct (observe_flag_roundtrip p ObsDeregister) as (p' & E & G & _).
+    unfold set_observe_flag, set_observe_value in *. cbn [of_observe] in *.
+    rewrite set_as_uint in * by (change (256 ^ 4) with 4294967296; lia). injection E as <-.
+    rewrite G. apply list_eqb_refl.
+Qed.
+
+(* ---------- suite 60 kinds 3 and 4: lists of typed values ---------- *)
+Lemma enc_ok w x : width_ok w = true -> tval_ok w x = true -> enc_value w (fst x) (snd x) = Ok (spec_enc w x).
+Proof.
+  intros Hw Ht. unfold enc_value, spec_enc, tval_ok in *. destruct (w =? 0) eqn:E; [reflexivity|].
+  apply option_from_uint_spec. lia.
+Qed.
+
+Lemma enc_all_ok w vs : width_ok w = true -> forallb (tval_ok w) vs = true -> enc_all w vs = Ok (map (spec_enc w) vs).
+Proof.
+  intros Hw. induction vs as [|[v s] r IH]; cbn [enc_all forallb map]; [reflexivity|]. intros H.
+  apply andb_true_iff in H. destruct H as (H1 & H2). pose proof (enc_ok w (v, s) Hw H1) as HE. cbn [fst snd] in HE. rewrite HE, (IH H2). reflexivity.
+Qed.
+
+Lemma dec_enc w x : width_ok w = true -> tval_ok w x = true ->
+  dec_value w (spec_enc w x) = Ok (if w =? 0 then (0, snd x) else (fst x, [])).
+Proof.
+  intros Hw Ht. unfold dec_value, spec_enc, tval_ok in *. destruct (w =? 0) eqn:E.
+  - apply andb_true_iff in Ht. destruct Ht as (Hu & _). rewrite string_spec, Hu. reflexivity.
+  - rewrite uint_try_from_spec by (auto using be_min_wf, width_le8).
+    replace (len (be_min (fst x)) <=? w) with true by (symmetry; apply N.leb_le, be_min_len_bound; lia).
+    cbn [bind]. rewrite be_value_min. reflexivity.
+Qed.
+
+Lemma wr_typed_dec w bs : width_ok w = true -> bytes_wf bs -> wr_typed w (dec_value w bs) = wr_typed w (spec_dec w bs).
+Proof.
+  intros Hw Hb. unfold dec_value, spec_dec. destruct (w =? 0) eqn:E.
+  - rewrite string_spec. destruct (utf8_valid bs); reflexivity.
+  - rewrite uint_try_from_spec by (auto using width_le8). destruct (len bs <=? w); reflexivity.
+Qed.
+
+Lemma flat_map_wr_typed w (l1 l2 : list (outcome (N * bytes))) :
+  map (wr_typed w) l1 = map (wr_typed w) l2 -> wr_typed_list w (Some l1) = wr_typed_list w (Some l2).
+Proof.
+  intros H. unfold wr_typed_list, wr_list. f_equal.
+  assert (HL : len l1 = len l2) by (unfold len; rewrite <- (map_length (wr_typed w) l1), H, map_length; reflexivity).
+  rewrite HL. f_equal. rewrite !flat_map_concat_map, H. reflexivity.
+Qed.
+
+Theorem model_passes_oracle60_set_list r : verdict60 (4 :: r) (run60 (4 :: r)) = true.
+Proof.
+  unfold verdict60. destruct (in_domain60 (4 :: r)) eqn:ED; [|reflexivity]. cbn [in_domain60 spec60 run60] in *.
+  destruct (rd_packet r) as [[p [|k [|w r']]]|]; try discriminate.
+  destruct (rd_list rd_tval r') as [[vs [|? ?]]|]; try discriminate.
+  apply andb_true_iff in ED. destruct ED as (ED & HP). apply andb_true_iff in ED. destruct ED as (ED & Hvs).
+  apply andb_true_iff in ED. destruct ED as (Hw & Hk).
+  unfold set_options_as. rewrite (enc_all_ok w vs Hw Hvs). cbn [bind].
+  unfold set_option. set (p' := set_opts p (opt_insert (opts p) k (map (spec_enc w) vs))).
+  unfold observe_all, expect_typed, raw_of, get_option, get_options_as, get_first_option_as, get_first_option, get_option.
+  assert (HG : opt_get (opts p') k = Some (map (spec_enc w) vs)) by (unfold p', set_opts; cbn [opts]; apply opt_get_insert).
+  rewrite HG.
+  assert (HM : map (dec_value w) (map (spec_enc w) vs) = map (fun x => Ok (if w =? 0 then (0, snd x) else (fst x, []))) vs).
+  { rewrite map_map. apply map_ext_in. intros x Hx. apply dec_enc; [exact Hw|]. rewrite forallb_forall in Hvs. apply Hvs. exact Hx. }
+  rewrite HM. destruct vs as [|x vs']; [apply list_eqb_refl|].
+  cbn [map]. rewrite dec_enc by (auto; cbn [forallb] in Hvs; apply andb_true_iff in Hvs; tauto). apply list_eqb_refl.
+Qed.
+
+Lemma opt_add_raw m k b : opt_add m k b = opt_insert m k ((match opt_get m k with Some l => l | None => [] end) ++ [b]).
+Proof. unfold opt_add. destruct (opt_get m k); reflexivity. Qed.
+
+Lemma add_all_spec k w : width_ok w = true -> forall vs p, forallb (tval_ok w) vs = true ->
+  add_all p k w vs = Ok (match vs with [] => p | _ => set_opts p (opt_insert (opts p) k (raw_of p k ++ map (spec_enc w) vs)) end).
+Proof.
+  intros Hw. induction vs as [|[v s] r IH]; intros p H; [reflexivity|].
+  cbn [forallb] in H. apply andb_true_iff in H. destruct H as (H1 & H2).
+  cbn [add_all]. unfold add_option_as. pose proof (enc_ok w (v, s) Hw H1) as HE. cbn [fst snd] in HE. rewrite HE. cbn [bind].
+  rewrite (IH _ H2). f_equal. unfold add_option, set_opts, raw_of. cbn [opts hdr token payload].
+  rewrite opt_add_raw. destruct r as [|x r']; [reflexivity|].
+  rewrite opt_get_insert, opt_insert_insert, <- app_assoc. reflexivity.
+Qed.
+
+Lemma raw_all_wf p k : pkt_bytes_ok p = true -> Forall bytes_wf (raw_of p k).
+Proof.
+  intros HP. unfold raw_of. destruct (opt_get (opts p) k) as [vs|] eqn:EG; [|constructor].
+  unfold pkt_bytes_ok in HP. apply andb_true_iff in HP. destruct HP as (HP & _). apply andb_true_iff in HP. destruct HP as (HP & _).
+  rewrite forallb_forall in HP.
+  assert (HI : In (k, vs) (opts p)).
+  { clear HP. induction (opts p) as [|[k' vs'] m IH]; cbn [opt_get] in EG; [discriminate|].
+    destruct (k' =? k) eqn:EK; [left; assert (k' = k) by lia; congruence|]. destruct (k <? k'); [discriminate|right; apply IH; exact EG]. }
+  specialize (HP _ HI). cbn [fst snd] in HP. apply andb_true_iff in HP. destruct HP as (_ & HP).
+  apply Forall_forall. intros b Hb. rewrite forallb_forall in HP. apply bytes_wf_forallb. apply HP. exact Hb.
+Qed.
+
+Theorem model_passes_oracle60_add_list r : verdict60 (3 :: r) (run60 (3 :: r)) = true.
+Proof.
+  unfold verdict60. destruct (in_domain60 (3 :: r)) eqn:ED; [|reflexivity]. cbn [in_domain60 spec60 run60] in *.
+  destruct (rd_packet r) as [[p [|k [|w r']]]|]; try discriminate.
+  destruct (rd_list rd_tval r') as [[vs [|? ?]]|]; try discriminate.
+  apply andb_true_iff in ED. destruct ED as (ED & HP). apply andb_true_iff in ED. destruct ED as (ED & Hvs).
+  apply andb_true_iff in ED. destruct ED as (Hw & Hk).
+  rewrite (add_all_spec k w Hw vs p Hvs). destruct vs as [|x vs']; [apply list_eqb_refl|].
+  set (vs := x :: vs') in *. set (old := raw_of p k).
+  set (p' := set_opts p (opt_insert (opts p) k (old ++ map (spec_enc w) vs))).
+  unfold observe_all, expect_typed, raw_of, get_option, get_options_as, get_first_option_as, get_first_option, get_option.
+  assert (HG : opt_get (opts p') k = Some (old ++ map (spec_enc w) vs)) by (unfold p', set_opts; cbn [opts]; apply opt_get_insert).
+  rewrite HG.
+  pose proof (raw_all_wf p k HP) as Hold. fold old in Hold.
+  assert (HM : map (wr_typed w) (map (dec_value w) (old ++ map (spec_enc w) vs)) =
+               map (wr_typed w) (map (spec_dec w) old ++ map (fun x => Ok (if w =? 0 then (0, snd x) else (fst x, []))) vs)).
+  { rewrite !map_app, !map_map. f_equal.
+    - apply map_ext_in. intros b Hb. apply wr_typed_dec; [exact Hw|]. rewrite Forall_forall in Hold. apply Hold. exact Hb.
+    - apply map_ext_in. intros y Hy. rewrite dec_enc; [reflexivity|exact Hw|]. rewrite forallb_forall in Hvs. apply Hvs. exact Hy. }
+  rewrite (flat_map_wr_typed w _ _ HM).
+  assert (HF : wr_typed_first w (match (match old ++ map (spec_enc w) vs with [] => None | v :: _ => Some v end) with Some b => Some (dec_value w b) | None => None end) =
+               wr_typed_first w (match map (spec_dec w) old ++ map (fun x => Ok (if w =? 0 then (0, snd x) else (fst x, []))) vs with [] => None | y :: _ => Some y end)).
+  { destruct old as [|b t]; cbn [app map].
+    - unfold vs. cbn [map]. rewrite dec_enc by (auto; cbn [forallb] in Hvs; apply andb_true_iff in Hvs; tauto). reflexivity.
+    - unfold wr_typed_first. f_equal. apply wr_typed_dec; [exact Hw|]. inversion Hold; assumption. }
+  rewrite HF. apply list_eqb_refl.
+Qed.
+
+(* the whole of suite 60 *)
+Theorem model_passes_oracle60 s : verdict60 s (run60 s) = true.
+Proof.
+  destruct s as [|k r]; [reflexivity|].
+  destruct k as [|p]; [apply model_passes_oracle60_codec; exists r; auto|].
+  destruct p as [[[p|p|]|[p|p|]|]|[[p|p|]|[p|p|]|]|];
+    try (unfold verdict60; reflexivity).
+  - apply model_passes_oracle60_set_cf.
+  - apply model_passes_oracle60_set_observe.
+  - apply model_passes_oracle60_add_list.
+  - apply model_passes_oracle60_getters.
+  - apply model_passes_oracle60_set_list.
+  - apply model_passes_oracle60_codec. exists r. auto.
+  - apply model_passes_oracle60_codec. exists r. auto.
+Qed.
+
+(* ---------- suite 190 kind 4: set_path ---------- *)
+Lemma segs_split s : forall cur, segs s cur = split_slash s cur.
+Proof. induction s as [|c s IH]; intros cur; cbn [segs split_slash]; [reflexivity|]. destruct (c =? 47); rewrite ?IH; reflexivity. Qed.
+
+Lemma split_head_nonempty s : forall cur, cur <> [] -> match split_slash s cur with [] :: _ => False | _ => True end.
+Proof.
+  induction s as [|c s IH]; intros cur Hc; cbn [split_slash].
+  - destruct (rev cur) eqn:E; [|exact I]. apply (f_equal (@rev N)) in E. rewrite rev_involutive in E. cbn in E. congruence.
+  - destruct (c =? 47).
+    + destruct (rev cur) eqn:E; [|exact I]. apply (f_equal (@rev N)) in E. rewrite rev_involutive in E. cbn in E. congruence.
+    + apply IH. discriminate.
+Qed.
+
+Lemma spec_segments_eq s : spec_segments s = path_segments s.
+Proof.
+  unfold spec_segments, path_segments. destruct s as [|c t]; [reflexivity|].
+  cbn [strip_slash split_slash]. destruct (c =? 47) eqn:E; [apply segs_split|].
+  rewrite segs_split. cbn [split_slash]. rewrite E.
+  pose proof (split_head_nonempty t [c] ltac:(discriminate)) as H. destruct (split_slash t [c]) as [|[|x y] l]; [reflexivity|destruct H|reflexivity].
+Qed.
+
+Lemma fold_add_opts k segs : forall q, segs <> [] ->
+  fold_left (fun q seg => add_option q k seg) segs q = set_opts q (opt_insert (opts q) k (raw_of q k ++ segs)).
+Proof.
+  induction segs as [|x r IH]; intros q Hne; [congruence|]. cbn [fold_left].
+  destruct r as [|y r'].
+  - cbn [fold_left]. unfold add_option, raw_of. rewrite opt_add_raw. reflexivity.
+  - rewrite IH by discriminate. unfold add_option, set_opts, raw_of. cbn [opts hdr token payload].
+    rewrite opt_add_raw, opt_get_insert, opt_insert_insert, <- app_assoc. reflexivity.
+Qed.
+
+Theorem model_passes_oracle190_set_path r : verdict190 (4 :: r) (run190 (4 :: r)) = true.
+Proof.
+  unfold verdict190. destruct (in_domain190 (4 :: r)) eqn:ED; [|reflexivity]. cbn [in_domain190 spec190 run190] in *.
+  destruct (rd_packet r) as [[p r']|]; [|discriminate]. destruct (rd_bytes r') as [[path [|? ?]]|]; try discriminate.
+  apply andb_true_iff in ED. destruct ED as (ED & HP). apply andb_true_iff in ED. destruct ED as (Hu & Hb).
+  destruct (path_roundtrip p path (segments_valid path Hu)) as (_ & G1 & G2 & _).
+  cbv zeta in G1, G2. rewrite G1, G2, spec_segments_eq. cbn [wr_vec].
+  assert (HE : set_path p path = match path_segments path, opt_get (opts p) 11 with [], None => p | _, _ => with_opt p 11 (path_segments path) end).
+  { unfold set_path, with_opt. change OPT_URI_PATH with 11.
+    destruct (path_segments path) as [|x sg] eqn:ES.
+    - cbn [fold_left]. unfold clear_option, opt_clear, set_opts. destruct (opt_get (opts p) 11); [reflexivity|]. destruct p as [h t o pl]. reflexivity.
+    - rewrite fold_add_opts by discriminate. unfold clear_option, raw_of, set_opts, opt_clear. cbn [opts hdr token payload].
+      destruct (opt_get (opts p) 11) eqn:EG; cbn [opts].
+      + rewrite opt_get_insert, opt_insert_insert. reflexivity.
+      + rewrite EG. reflexivity. }
+  rewrite HE. apply list_eqb_refl.
+Qed.
+
+(* ---------- suite 190 kinds 9 / 10: set_from_message (coap-message 0.2 / 0.3) ---------- *)
+Lemma fold_add_fields l : forall q,
+  let q' := fold_left (fun q kv => add_option q (fst kv) (snd kv)) l q in
+  hdr q' = hdr q /\ token q' = token q /\ payload q' = payload q /\
+  opts q' = fold_left (fun m kv => opt_insert m (fst kv) (raw_of (mkPacket (hdr q) [] m []) (fst kv) ++ [snd kv])) l (opts q).
+Proof.
+  induction l as [|[k v] l IH]; intros q; cbn [fold_left]; [repeat split|].
+  destruct (IH (add_option q k v)) as (H1 & H2 & H3 & H4). cbv zeta in *. cbn [fst snd].
+  rewrite H1, H2, H3, H4.
+  unfold add_option, set_opts. cbn [hdr token payload opts fst snd]. repeat split.
+  rewrite opt_add_raw. unfold raw_of. cbn [opts]. reflexivity.
+Qed.
+
+Theorem model_passes_oracle190_copy k r : k = 9 \/ k = 10 ->
+  (forall src r', rd_packet r = Some (src, r') -> class_to_byte (code (hdr src)) < 256) ->
+  verdict190 (k :: r) (run190 (k :: r)) = true.
+Proof.
+  intros Hk Hcode. unfold verdict190.
+  assert (HD : in_domain190 (k :: r) = in_domain190 (9 :: r)) by (destruct Hk as [-> | ->]; reflexivity).
+  assert (HS : spec190 (k :: r) = spec190 (9 :: r)) by (destruct Hk as [-> | ->]; reflexivity).
+  assert (HR : run190 (k :: r) = run190 (9 :: r)) by (destruct Hk as [-> | ->]; reflexivity).
+  rewrite HD, HS, HR. clear HD HS HR Hk k.
+  destruct (in_domain190 (9 :: r)) eqn:ED; [|reflexivity]. cbn [in_domain190 spec190 run190] in *.
+  destruct (rd_packet r) as [[src r']|] eqn:ER; [|discriminate]. destruct (rd_packet r') as [[dst [|? ?]]|]; try discriminate.
+  specialize (Hcode src r' eq_refl).
+  unfold set_from_message, readable_options, readable_code, readable_payload.
+  set (d0 := set_code dst (class_of_byte (class_to_byte (code (hdr src))))).
+  destruct (fold_add_fields (flatten (opts src)) d0) as (H1 & H2 & H3 & H4). cbv zeta in *.
+  set (d1 := fold_left (fun q kv => add_option q (fst kv) (snd kv)) (flatten (opts src)) d0) in *.
+  assert (HE : set_payload d1 (payload src) =
+               mkPacket (mkHeader (vtt (hdr dst)) (class_of_byte (class_to_byte (code (hdr src)))) (mid (hdr dst))) (token dst)
+                 (fold_left (fun m kv => opt_insert m (fst kv) (raw_of (mkPacket (hdr dst) [] m []) (fst kv) ++ [snd kv])) (flatten (opts src)) (opts dst))
+                 (payload src)).
+  { unfold set_payload. rewrite H1, H2, H4. unfold d0, set_code, set_hdr. cbn [hdr token opts]. reflexivity. }
+  rewrite HE. unfold wr_view, readable_code, readable_options, readable_payload. cbn [hdr code opts payload].
+  rewrite class_byte_wf by exact Hcode. apply list_eqb_refl.
 Qed.
